@@ -308,7 +308,8 @@ func (x *Exec) doBinOp(st *State, b *ssa.BinOp) Value {
 	case token.LSS, token.LEQ, token.GTR, token.GEQ:
 		op := map[token.Token]string{token.LSS: "<", token.LEQ: "<=", token.GTR: ">", token.GEQ: ">="}[b.Op]
 		if isString(l.T) {
-			c := x.uf("strcmp", sInt, l.one(), r.one())
+			c, facts := x.strCmp(l.one(), r.one())
+			st.assumeAll(facts)
 			return scalar(t, mkCmp(op, c, tZero))
 		}
 		return scalar(t, mkCmp(op, l.one(), r.one()))
@@ -1031,4 +1032,16 @@ func chanMatches(v ssa.Value, pat string) bool {
 		}
 	}
 	return false
+}
+
+// strCmp is the three-way comparison of two strings (an uninterpreted function) together with the instances of
+// the order axioms for this pair: it is zero exactly for equal strings and antisymmetric.
+func (x *Exec) strCmp(l, r Term) (Term, []Term) {
+	c := x.uf("strcmp", sInt, l, r)
+	rc := x.uf("strcmp", sInt, r, l)
+	return c, []Term{
+		mkEq(mkEq(c, tZero), mkEq(l, r)),
+		mkEq(mkCmp("<", c, tZero), mkCmp(">", rc, tZero)),
+		mkEq(mkCmp(">", c, tZero), mkCmp("<", rc, tZero)),
+	}
 }
